@@ -303,6 +303,18 @@ def run(ctx: Ctx) -> Result:
                     if top is None or top in ('-', 'e') or bytes.fromhex(top) != want:
                         viol(what_ + f' on the integer-valued float32 {fb.hex()} (= {"-" if sgn else ""}2^{e_} * (1 + {man}/2^23))', {'script': script.hex(), 'value': str(z)[:60]},
                              'stack top ' + want.hex(), f['status'] + ' ' + str(top)[:80])
+    # ... and floats with a fractional part: FLOAT_TO_INT drops the fraction (towards zero, for both signs)
+    for x_ in (0.5, 2.5, 123.75, 8388607.5, 1e-40, 0.999, 1.5, 3.4e5 + 0.5):
+        for sg_ in (1.0, -1.0):
+            fb = _st.pack('!f', sg_ * x_); xv = _st.unpack('!f', fb)[0]
+            script = G.push(fb) + bytes([N['FLOAT_TO_INT']])
+            o = vmrun.run_impl(cfg, {}, script)
+            run_lines.append(vmrun.case_line('RUN', cfg, {}, [script])); run_outs.append(o)
+            res.note_case(('float-to-int-fraction', fb)); nops += 1
+            f = vmrun.fields(o); top = f.get('stack', '-').split(',')[0] if f['status'] == 'OK' else None
+            want = ref_i2b(int(xv))
+            if top is None or top in ('-', 'e') or bytes.fromhex(top) != want:
+                viol(f'FLOAT_TO_INT on {xv!r}', {'script': script.hex()}, 'stack top ' + want.hex() + f' (= {int(xv)}, the fraction dropped)', f['status'] + ' ' + str(top)[:40])
     # instructions that *produce* integers from lengths / counts use the same signed encoding (SIZE, DEPTH)
     for n in sorted({0, 1, 2, 126, 127, 128, 129, 200, 254, 255, 256, 257, 511, 512, 1000, 1023, 1024} | {irng.randrange(0, 1025) for _ in range(ctx.n(20, 200))}):
         script = G.push(bytes([7]) * n) + bytes([N['SIZE']]) if n else bytes([N['PUSH1'], 0, N['SIZE']])
